@@ -264,6 +264,15 @@ def run(tape, scenario):
     # in 'processes': user u lives in process user_proc[u] (a process may have several tasks)
     nprocs = 2 + tape.draw("c15/nprocs", 2) if scenario == "processes" else 1
     user_proc = [0, 1] + [tape.draw("c15/user-proc", nprocs) for _ in range(nusers - 2)]
+    if scenario == "processes" and nusers >= 4 and nterm == 2 \
+            and tape.chance("c15/crossed-users", 50):
+        # two processes with one user at each of the two terminals: whatever one task
+        # of a process does about terminal 0 (waits, is cancelled, fails) happens while
+        # its other task is in the middle of an exchange with terminal 1
+        user_term[:4] = [0, 0, 1, 1]
+        user_proc[:4] = [0, 1, 0, 1]
+        cancel_faults = True
+        world.count("c15/two-processes-with-a-user-at-each-terminal")
     violations = []
     outcomes = {}
 
